@@ -18,7 +18,7 @@
 //   * nodes/node_<uuid>.capnpbin of stop a lists the footpaths a -> b (uuid, time, distance) in dataset
 //       order; the loader derives the reverse lists itself and appends a (self,0,0) entry to every
 //       reverse list (nodes_cache_fetcher.cpp:133-162); times / distances are Int16 in the schema;
-//   * modes 0,1,2 -> "bus","rail","transferable";
+//   * modes 0,1,2 -> "tram","tramTrain","transferable" (0 and 1 share one extended GTFS route type in the server's table);
 //   * a path's segment distances go to the JSON `data` field: {"segments":[{"distanceMeters":d,
 //       "travelTimeSeconds":t}, ...]} with one object per encoded distance (paths_cache_fetcher.cpp:80-92);
 //       travelTimeSeconds is 1000+k (never used by the calculation; deliberately unlike any distance);
@@ -98,7 +98,7 @@ static const char *BREAKS[][2] = {
 };
 
 static std::string mk(int kind, long i) { char b[64]; snprintf(b, sizeof b, "00000000-0000-0000-%04x-%012lx", kind, i); return b; }
-static const char *MODES[] = {"bus", "rail", "transferable"};
+static const char *MODES[] = {"tram", "tramTrain", "transferable"};
 static std::vector<int> ints(std::istringstream &is) { std::vector<int> v; std::string w; while (is >> w) { if (w == ";") break; v.push_back(std::stoi(w)); } return v; }
 static bool save(::capnp::MessageBuilder &m, const std::string &p) {
   int fd = open(p.c_str(), O_WRONLY | O_CREAT | O_TRUNC, 0644);
